@@ -41,6 +41,8 @@ package clusters
 
 //@ func (*endpointPickStrategy).Pop props C03, C14
 //@   modifies smap(&s.cluster.loadbalancer), cells("uint64")
+//@   rely [cursors_published_once] forall k ref :: {smhas(LB, k)} old(smhas(LB, k)) ==> smhas(LB, k) && smget(LB, k) == old(smget(LB, k))
+//@   guarantee [cursors_published_once] forall k ref :: {smhas(LB, k)} old(smhas(LB, k)) ==> smhas(LB, k) && smget(LB, k) == old(smget(LB, k))
 //@   ensures [member] result1 == nil ==> result != nil && exists n int :: {s.upstreams[n]} 0 <= n && n < len(s.upstreams) && smhas(EPS, box(s.upstreams[n])) && result == unbox(smget(EPS, box(s.upstreams[n])), "*EndpointInfo") && !result.status.Disabled && result.status.Healthy
 //@   ensures [none] result1 != nil <==> !exists n int :: {s.upstreams[n]} 0 <= n && n < len(s.upstreams) && smhas(EPS, box(s.upstreams[n])) && !unbox(smget(EPS, box(s.upstreams[n])), "*EndpointInfo").status.Disabled && unbox(smget(EPS, box(s.upstreams[n])), "*EndpointInfo").status.Healthy
 //@   ensures [none_nil] result1 != nil ==> result == nil
